@@ -223,6 +223,14 @@ func typeNameOf(t types.Type) string {
 	return t.Name()
 }
 
+// aux returns the auxiliary name base, or a variant when the name under test is base itself
+func aux(n, base string) string {
+	if n == base {
+		return base + "_"
+	}
+	return base
+}
+
 func c11Positions() []c11Pos {
 	return []c11Pos{
 		{"global", func(n string) *ir.Module {
@@ -238,7 +246,7 @@ func c11Positions() []c11Pos {
 		{"param", func(n string) *ir.Module {
 			m := ir.NewModule()
 			f := m.NewFunc("f", i32, ir.NewParam(n, i32))
-			b := f.NewBlock("entry")
+			b := f.NewBlock(aux(n, "entry"))
 			b.NewRet(f.Params[0])
 			return m
 		}, func(m *ir.Module) string {
@@ -251,7 +259,7 @@ func c11Positions() []c11Pos {
 		{"block", func(n string) *ir.Module {
 			m := ir.NewModule()
 			f := m.NewFunc("f", types.Void)
-			e := f.NewBlock("entry")
+			e := f.NewBlock(aux(n, "entry"))
 			t := f.NewBlock(n)
 			e.NewBr(t)
 			t.NewRet(nil)
@@ -265,8 +273,8 @@ func c11Positions() []c11Pos {
 		}},
 		{"result", func(n string) *ir.Module {
 			m := ir.NewModule()
-			f := m.NewFunc("f", i32, ir.NewParam("x", i32))
-			b := f.NewBlock("entry")
+			f := m.NewFunc("f", i32, ir.NewParam(aux(n, "x"), i32))
+			b := f.NewBlock(aux(n, "entry"))
 			v := b.NewAdd(f.Params[0], f.Params[0])
 			v.SetName(n)
 			b.NewRet(v)
@@ -719,7 +727,7 @@ func c11MorePositions() []c11Pos {
 	return []c11Pos{
 		{"alias", func(n string) *ir.Module {
 			m := ir.NewModule()
-			g := m.NewGlobalDef("g", constant.NewInt(i32, 1))
+			g := m.NewGlobalDef(aux(n, "g"), constant.NewInt(i32, 1))
 			m.NewAlias(n, g)
 			return m
 		}, func(m *ir.Module) string {
@@ -730,7 +738,7 @@ func c11MorePositions() []c11Pos {
 		}},
 		{"ifunc", func(n string) *ir.Module {
 			m := ir.NewModule()
-			res := m.NewFunc("res", types.NewPointer(types.NewFunc(types.Void)))
+			res := m.NewFunc(aux(n, "res"), types.NewPointer(types.NewFunc(types.Void)))
 			b := res.NewBlock("entry")
 			b.NewRet(constant.NewNull(types.NewPointer(types.NewFunc(types.Void))))
 			m.NewIFunc(n, res)
@@ -753,7 +761,7 @@ func c11MorePositions() []c11Pos {
 		{"blockaddress", func(n string) *ir.Module {
 			m := ir.NewModule()
 			f := m.NewFunc("f", types.Void)
-			e := f.NewBlock("entry")
+			e := f.NewBlock(aux(n, "entry"))
 			t := f.NewBlock(n)
 			e.NewBr(t)
 			t.NewRet(nil)
